@@ -520,7 +520,8 @@ def run_case(case):
         # end cells of equal width on most periodic cases; any family (unequal end cells) where the seam is expected to be exact
         fam = str(rng.choice(['uniform', 'symmetric', 'random', 'geometric', 'smooth'] if case.get('scheme') in ('none', 'central') else ['uniform', 'symmetric', 'random']))
     nmax = case.get('nmax', ((6 if nd < 3 else 4) if case.get('deep') else (4 if nd < 3 else 3)) if kind == 'tel' else (6 if nd < 3 else 4))
-    faces, meta = gen.gen_grid(rng, cls, nmin=1, nmax=nmax, family=fam)
+    gfam, gopts = gen.geo_opts(rng, case.get('geo'))
+    faces, meta = gen.gen_grid(rng, cls, nmin=1 if not case.get('geo') else 2, nmax=nmax, family=gfam or fam, opts=gopts)
     g = Geom(cls, faces)
     m = gen.build_mesh(pf, cls, faces)
     note = None
@@ -533,7 +534,9 @@ def run_case(case):
     else:
         bad, cov, maxerr, k2, extra, nontrivial, note = open_system(case, rng, cls, faces, meta, g, m)
     cov['kind:%s:%s' % (kind, cls)] = 1
-    key = '%s/%s/%s/%s' % (cls, meta['n'], meta['family'], k2)
+    if case.get('geo'):
+        cov['geo:' + case['geo']] = 1
+    key = '%s/%s/%s/%s/%s' % (cls, meta['n'], meta['family'], k2, case.get('geo'))
     sample = dict({'grid': gen.describe_grid(meta, faces), 'kind': kind}, **extra)
     if bad is None:
         return {'verdict': 'inconclusive', 'key': key, 'msg': note, 'cov': cov, 'nontrivial': False}
@@ -561,6 +564,10 @@ def plan(tier, seed):
             for rep in range(5 if q else 120):
                 cases.append({'cls': cls, 'kind': 'tel', 'term': term, 'seed': [seed, 1, ci, i], 'ufam': ['sign', 'random', 'sign'][rep % 3], 'deep': (not q) and rep % 4 == 0,
                               'family': gen.FAMILIES[rep % 5] if rep % 2 else None})
+                i += 1
+        for term in TERMS:            # the operators on nanometre / megametre / almost-uniform / integer-typed grids
+            for rep in range(4 if q else 40):
+                cases.append({'cls': cls, 'kind': 'tel', 'term': term, 'seed': [seed, 1, ci, i], 'ufam': ['sign', 'random'][rep % 2], 'geo': ['nano', 'jitter', 'mega', 'int'][rep % 4]})
                 i += 1
         for mode in ('implicit', 'explicit'):
             for scheme in SCHEMES:
@@ -591,7 +598,7 @@ def floors(agg, tier):
         for kind, need in (('steps', 20), ('open', 6)):
             if agg['cov'].get('kind:%s:%s' % (kind, cls), 0) < need:
                 out.append('kind:%s:%s < %d' % (kind, cls, need))
-    for k in ('closure:periodic', 'closure:walls', 'carry:update:explicit', 'carry:update:implicit', 'carry:rebind:explicit', 'periodic_unequal_ends:implicit', 'periodic_unequal_ends:explicit', 'steps:implicit:upwind+tvd', 'steps:explicit:central', 'reconfig:to-periodic', 'reconfig:close-dirichlet', 'reconfig:copies', 'reconfig:shared-bc'):
+    for k in ('geo:nano', 'geo:jitter', 'geo:mega', 'geo:int', 'closure:periodic', 'closure:walls', 'carry:update:explicit', 'carry:update:implicit', 'carry:rebind:explicit', 'periodic_unequal_ends:implicit', 'periodic_unequal_ends:explicit', 'steps:implicit:upwind+tvd', 'steps:explicit:central', 'reconfig:to-periodic', 'reconfig:close-dirichlet', 'reconfig:copies', 'reconfig:shared-bc'):
         if agg['cov'].get(k, 0) < 10:
             out.append('%s < 10' % k)
     return out
